@@ -170,7 +170,6 @@ package types
 
 // ---- Set and Map: abstracted by version counters (types/map.go is a lock-free port of sync.Map on atomics and
 // unsafe and is outside the verified subset; Set is a mutex-protected Go map) ---------------------------
-//@ ghost field (*Map).$mapver int
 
 // Set: a mutex-protected Go map; the contracts speak about the map itself (s.cache), no abstraction in between
 //@ func (*Set).Has(key)
@@ -211,31 +210,173 @@ package types
 //@   ensures [C20.set.new] result != nil && fresh(result) && result.cache != nil && fresh(result.cache)
 //@   ensures [C20.set.newkeys] forall k int :: 0 <= k && k < len(keys) ==> maphas(result.cache, keys[k])
 
+// ---- Map (types/map.go, a port of sync.Map): verified against its own fields -------------------------------------------
+// The abstract view of a Map: a key is looked up in the read-only snapshot first and, when the snapshot is marked amended,
+// in the dirty map; it is present when its entry holds a value pointer that is neither nil (deleted) nor the entry's
+// expunged marker. mu is a monitor: it guards read (only stored with mu held), dirty and misses. What a method knows about
+// them before it takes mu is stale afterwards (other goroutines may have promoted or rebuilt the dirty map while it
+// waited), so everything done under the lock is proved from the monitor invariant alone, and results are stated against the
+// state in which the operation takes effect (atlock). Atomic entry pointers are read and written sequentially here:
+// interference on them between two atomic operations of one method is not modelled.
+//@ macro mrd(m)       = aload(m.read)
+//@ macro mrhas(m, k)  = mrd(m) != nil && maphas(mrd(m).m, k)
+//@ macro mrval(m, k)  = mapval(mrd(m).m, k)
+//@ macro mdhas(m, k)  = maphas(m.dirty, k)
+//@ macro mdval(m, k)  = mapval(m.dirty, k)
+//@ macro mamended(m)  = mrd(m) != nil && mrd(m).amended
+//@ macro mexp(e)      = aload(e.p) == e.expunged
+//@ macro mlive(e)     = e != nil && aload(e.p) != nil && aload(e.p) != e.expunged
+//@ macro mentry(m, k) = mrhas(m, k) ? mrval(m, k) : (mamended(m) && mdhas(m, k) ? mdval(m, k) : nil)
+//@ macro mhas(m, k)   = mlive(mentry(m, k))
+//@ macro mval(m, k)   = deref(aload(mentry(m, k).p))
+// what a Map method may write: the guarded fields, the dirty map it finds, and the value pointers of entries (entries are
+// private to types/map.go; a caller cannot name one)
+//@ footprint MapState(m) = MapOf(m.dirty), m.read.v, m.dirty, m.misses, Every(elem(m.dirty).p.v)
+//@ footprint MapGuarded(m) = MapOf(m.dirty), m.read.v, m.dirty, m.misses
+// monitor invariant, in pieces: (1) an amended snapshot has a dirty map; (2) snapshot entries are never nil and carry their
+// marker; an unexpunged one is also in the dirty map when there is one, an expunged one is not (and then there is a dirty
+// map); (3) dirty entries are never nil or expunged, agree with the snapshot entry of the same key, and a dirty map that is
+// not announced by "amended" holds no key the snapshot lacks; (4, 5) no entry serves two keys
+//@ macro minv1(m) = m != nil && (mamended(m) ==> m.dirty != nil) && (m.dirty != nil && mrd(m) != nil ==> mrd(m).m != m.dirty)
+//@ macro minv2(m) = forall k TKey :: mrhas(m, k) ==> mrval(m, k) != nil && allocated(mrval(m, k)) && mrval(m, k).expunged != nil && allocated(mrval(m, k).expunged) && (m.dirty != nil && !mexp(mrval(m, k)) ==> mdhas(m, k)) && (mexp(mrval(m, k)) ==> m.dirty != nil && !mdhas(m, k))
+//@ macro minv3(m) = forall k TKey :: mdhas(m, k) ==> mdval(m, k) != nil && allocated(mdval(m, k)) && mdval(m, k).expunged != nil && allocated(mdval(m, k).expunged) && !mexp(mdval(m, k)) && (mrhas(m, k) ==> mrval(m, k) == mdval(m, k)) && (!mamended(m) ==> mrhas(m, k))
+//@ macro minv4(m) = forall k1 TKey :: forall k2 TKey :: mrhas(m, k1) && mrhas(m, k2) && mrval(m, k1) == mrval(m, k2) ==> k1 == k2
+//@ macro minv5(m) = forall k1 TKey :: forall k2 TKey :: mdhas(m, k1) && mdhas(m, k2) && mdval(m, k1) == mdval(m, k2) ==> k1 == k2
+//@ macro minv(m)  = minv1(m) && minv2(m) && minv3(m) && minv4(m) && minv5(m)
+
+// entry operations. Each is a loop around an atomic compare-and-swap; without interference the swap succeeds at the first
+// attempt, which the loop invariants say (the pointer still has the value the method saw on entry).
+//@ func (*entry).tryLoadOrStore(i)
+//@   props C20
+//@   requires e != nil && e.expunged != nil
+//@   modifies e.p.v
+//@   loop 1 invariant aload(e.p) == nil && old(aload(e.p)) == nil
+//@   ensures [C20.map.e.los.expunged] old(aload(e.p)) == e.expunged ==> !ok && aload(e.p) == old(aload(e.p))
+//@   ensures [C20.map.e.los.loaded]   old(aload(e.p)) != nil && old(aload(e.p)) != e.expunged ==> ok && loaded && actual == old(deref(aload(e.p))) && aload(e.p) == old(aload(e.p))
+//@   ensures [C20.map.e.los.stored]   old(aload(e.p)) == nil ==> ok && !loaded && actual == i && aload(e.p) != nil && fresh(aload(e.p)) && deref(aload(e.p)) == i
+//@ func (*entry).trySwap(i)
+//@   props C20
+//@   requires e != nil
+//@   modifies e.p.v
+//@   loop 1 invariant aload(e.p) == old(aload(e.p))
+//@   ensures [C20.map.e.swap.expunged] old(aload(e.p)) == e.expunged ==> result0 == nil && !result1 && aload(e.p) == old(aload(e.p))
+//@   ensures [C20.map.e.swap.done]     old(aload(e.p)) != e.expunged ==> result0 == old(aload(e.p)) && result1 && aload(e.p) == i
+//@ func (*entry).delete()
+//@   props C20
+//@   requires e != nil
+//@   modifies e.p.v
+//@   loop 1 invariant aload(e.p) == old(aload(e.p))
+//@   ensures [C20.map.e.del.absent] (old(aload(e.p)) == nil || old(aload(e.p)) == e.expunged) ==> !ok && aload(e.p) == old(aload(e.p))
+//@   ensures [C20.map.e.del.done]   old(aload(e.p)) != nil && old(aload(e.p)) != e.expunged ==> ok && value == old(deref(aload(e.p))) && aload(e.p) == nil
+//@ func (*entry).tryExpungeLocked()
+//@   props C20
+//@   requires e != nil
+//@   modifies e.p.v
+//@   loop 1 invariant aload(e.p) == old(aload(e.p)) && p == aload(e.p)
+//@   ensures [C20.map.e.expunge.nil]  old(aload(e.p)) == nil ==> isExpunged && aload(e.p) == e.expunged
+//@   ensures [C20.map.e.expunge.kept] old(aload(e.p)) != nil ==> isExpunged == (old(aload(e.p)) == e.expunged) && aload(e.p) == old(aload(e.p))
+
+//@ func (*Map).missLocked()
+//@   props C20, C04
+//@   requires minv(m) && mamended(m)
+//@   modifies m.read.v, m.dirty, m.misses
+//@   ensures [C20.map.miss.inv]  minv(m)
+//@   ensures [C20.map.miss.view] forall k TKey :: mhas(m, k) == old(mhas(m, k)) && (mhas(m, k) ==> mentry(m, k) == old(mentry(m, k)))
+
+// building the dirty map (under mu, snapshot not amended): a copy of the snapshot without the deleted entries, which are
+// marked expunged on the way. The view does not change: deleted and expunged entries are equally absent.
+//@ func (*Map).dirtyLocked()
+//@   props C20, C04
+//@   requires minv(m) && !mamended(m)
+//@   modifies m.dirty, Every(elem(m.dirty).p.v)
+//@   loop 1 invariant m != nil && mrd(m) == old(mrd(m)) && (mrd(m) == nil ==> read.m == nil) && (mrd(m) != nil ==> read.m == mrd(m).m) && m.dirty != nil && fresh(m.dirty) && old(m.dirty) == nil
+//@   loop 1 invariant forall k TKey :: mrhas(m, k) ==> aload(mrval(m, k).p) == old(aload(mrval(m, k).p)) || (old(aload(mrval(m, k).p)) == nil && aload(mrval(m, k).p) == mrval(m, k).expunged)
+//@   loop 1 invariant forall k TKey :: maphas(m.dirty, k) ==> mrhas(m, k) && mapval(m.dirty, k) == mrval(m, k) && aload(mapval(m.dirty, k).p) != nil && aload(mapval(m.dirty, k).p) != mapval(m.dirty, k).expunged
+//@   loop 1 invariant forall k TKey :: visited(k) && mrhas(m, k) && aload(mrval(m, k).p) != mrval(m, k).expunged ==> maphas(m.dirty, k)
+//@   ensures [C20.map.dirty.made] m.dirty != nil && mrd(m) == old(mrd(m)) && (old(m.dirty) != nil ==> m.dirty == old(m.dirty)) && (old(m.dirty) == nil ==> fresh(m.dirty))
+//@   ensures [C20.map.dirty.inv]  minv(m)
+//@   ensures [C20.map.dirty.view] forall k TKey :: mhas(m, k) == old(mhas(m, k)) && mentry(m, k) == old(mentry(m, k)) && (mhas(m, k) ==> aload(mentry(m, k).p) == old(aload(mentry(m, k).p)))
+
 //@ func (*Map).Load(key)
-//@   trusted "types/map.go (sync.Map port on atomics/unsafe) is outside the verified subset"
-//@   pure
-//@   ensures ok == uf_b_mapHas(m, key, m.$mapver)
-//@   ensures ok ==> iface(value) == uf_i_mapVal(m, key, m.$mapver)
-//@   ensures ok ==> value != nil   // every Store of this code base stores a non-nil value (precondition of Store below)
+//@   props C20, C04
+//@   assumes minv(m)
+//@   monitor m.mu guards MapGuarded(m) invariant [C20.map.monitor] minv(m)
+//@   modifies MapGuarded(m)
+//@   ensures [C20.map.load.ok,C04.map.load.ok]   ok == atlock(mhas(m, key))
+//@   ensures [C20.map.load.val,C04.map.load.val] ok ==> value == atlock(mval(m, key))
+//@   ensures [C20.map.load.view] forall k TKey :: mhas(m, k) == atlock(mhas(m, k)) && (mhas(m, k) ==> mval(m, k) == atlock(mval(m, k)))
+//@   ensures [C20.map.load.inv]  minv(m)
 
+// Swap / Store: afterwards the key is present with the new value, every other key is as it was when the operation took
+// effect, and the previous value is reported exactly when the key was present
+//@ func (*Map).Swap(key, value)
+//@   props C20, C04
+//@   assumes minv(m)
+//@   monitor m.mu guards MapGuarded(m) invariant [C20.map.monitor] minv(m)
+//@   modifies MapState(m)
+//@   ensures [C20.map.swap.loaded] loaded == atlock(mhas(m, key)) && (loaded ==> previous == atlock(mval(m, key)))
+//@   ensures [C20.map.swap.stored,C04.map.stored] mhas(m, key) && mval(m, key) == value
+//@   ensures [C20.map.swap.others,C04.map.others] forall k TKey :: k != key ==> mhas(m, k) == atlock(mhas(m, k)) && (mhas(m, k) ==> mval(m, k) == atlock(mval(m, k)))
+//@   ensures [C20.map.swap.inv]    minv(m)
 //@ func (*Map).Store(key, value)
-//@   trusted "types/map.go (sync.Map port on atomics/unsafe) is outside the verified subset"
-//@   requires value != nil
-//@   modifies m.$mapver
-//@   ensures uf_b_mapHas(m, key, m.$mapver) && uf_i_mapVal(m, key, m.$mapver) == iface(value)
+//@   props C20, C04
+//@   assumes minv(m)
+//@   modifies MapState(m)
+//@   ensures [C20.map.store.stored,C04.map.store.stored] mhas(m, key) && mval(m, key) == value
+//@   ensures [C20.map.store.others,C04.map.store.others] forall k TKey :: k != key ==> mhas(m, k) == old(mhas(m, k)) && (mhas(m, k) ==> mval(m, k) == old(mval(m, k)))
+//@   ensures [C20.map.store.inv]    minv(m)
 
-//@ func (*Map).Range(f)
-//@   trusted "types/map.go (sync.Map port on atomics/unsafe) is outside the verified subset; the callback is verified as its own unit and is assumed to be called once per entry"
-//@   requires m != nil
-//@   modifies *
-//@ func (*Map).Clear()
-//@   trusted "types/map.go (sync.Map port on atomics/unsafe) is outside the verified subset"
-//@   modifies m.$mapver
+//@ func (*Map).LoadOrStore(key, value)
+//@   props C20
+//@   assumes minv(m)
+//@   monitor m.mu guards MapGuarded(m) invariant [C20.map.monitor] minv(m)
+//@   modifies MapState(m)
+//@   ensures [C20.map.los.loaded] loaded == atlock(mhas(m, key)) && (loaded ==> actual == atlock(mval(m, key)))
+//@   ensures [C20.map.los.stored] mhas(m, key) && mval(m, key) == actual && (!loaded ==> actual == value)
+//@   ensures [C20.map.los.others] forall k TKey :: k != key ==> mhas(m, k) == atlock(mhas(m, k)) && (mhas(m, k) ==> mval(m, k) == atlock(mval(m, k)))
+//@   ensures [C20.map.los.inv]    minv(m)
 
+// LoadAndDelete / Delete: afterwards the key is absent, every other key is as it was
+//@ func (*Map).LoadAndDelete(key)
+//@   props C20, C04
+//@   assumes minv(m)
+//@   monitor m.mu guards MapGuarded(m) invariant [C20.map.monitor] minv(m)
+//@   modifies MapState(m)
+//@   ensures [C20.map.lad.loaded] loaded == atlock(mhas(m, key)) && (loaded ==> value == atlock(mval(m, key)))
+//@   ensures [C20.map.lad.gone,C04.map.gone]     !mhas(m, key)
+//@   ensures [C20.map.lad.others,C04.map.delothers] forall k TKey :: k != key ==> mhas(m, k) == atlock(mhas(m, k)) && (mhas(m, k) ==> mval(m, k) == atlock(mval(m, k)))
+//@   ensures [C20.map.lad.inv]    minv(m)
 //@ func (*Map).Delete(key)
-//@   trusted "types/map.go (sync.Map port on atomics/unsafe) is outside the verified subset"
-//@   modifies m.$mapver
-//@   ensures !uf_b_mapHas(m, key, m.$mapver)
+//@   props C20, C04
+//@   assumes minv(m)
+//@   modifies MapState(m)
+//@   ensures [C20.map.del.gone,C04.map.del.gone]     !mhas(m, key)
+//@   ensures [C20.map.del.others,C04.map.del.others] forall k TKey :: k != key ==> mhas(m, k) == old(mhas(m, k)) && (mhas(m, k) ==> mval(m, k) == old(mval(m, k)))
+//@   ensures [C20.map.del.inv]    minv(m)
+
+// Clear: no key is present afterwards
+//@ func (*Map).Clear()
+//@   props C20
+//@   assumes minv(m)
+//@   monitor m.mu guards MapGuarded(m) invariant [C20.map.monitor] minv(m)
+//@   modifies MapGuarded(m)
+//@   ensures [C20.map.clear.empty] forall k TKey :: !mhas(m, k)
+//@   ensures [C20.map.clear.inv]   minv(m)
+
+// Range: the callback sees pairs that are present in the map when they are handed over; a snapshot that lacks keys of the
+// dirty map is first replaced by the promoted dirty map (under mu, after re-reading it). The callback may itself use the
+// map (the shutdown callback closes sessions, whose close listeners delete them): what it leaves behind is not known here.
+//@ func (*Map).Range(f)
+//@   props C20, C04
+//@   assumes minv(m)
+//@   monitor m.mu guards MapGuarded(m) invariant [C20.map.monitor] minv(m)
+//@   dyncall f noeffect
+//@   reenter f modifies Every(elem(m.dirty).p.v)
+//@   modifies *
+//@   loop 1 invariant m != nil && forall k TKey :: maphas(read.m, k) ==> mapval(read.m, k) != nil
+//@   callsite f#1
+//@     assert [C20.map.range.live,C04.map.range.live] maphas(read.m, $0) && mlive(mapval(read.m, $0)) && $1 == deref(aload(mapval(read.m, $0).p))
+//@     assert [C20.map.range.whole] !read.amended || (mrd(m) != nil && !mamended(m) && mrd(m).m == read.m)
 
 // ---- the event bus, modularly: Emit and listener registration run no code that changes verified state
 // (the "no re-entrant interference" assumption); every call is an observable event of the caller's trace.
